@@ -155,7 +155,7 @@ def _mk(n, shape, mc, seq, res, bad, off, rng, flavours, prios):
     deps = [rng.sample(d, len(d)) for d in shape]
     prio = [rng.choice([-1, 0, 0, 1, 2, 5]) for _ in range(n)] if prios else [0] * n
     cfg = {"n": n, "deps": deps, "mc": mc, "prio": prio, "seq": seq, "res": res, "bad": bad,
-           "act": act, "truthy": truthy, "flavour": rng.choice(flavours)}
+           "act": act, "truthy": truthy, "flavour": rng.choice(flavours), "profile": rng.random() < 0.2}
     cfg["cid"] = cfg_key(cfg)
     return cfg
 
@@ -229,7 +229,7 @@ def random_config(rng, nmin=4, nmax=7):
         ops = ops[:-1] + [["exec", sel]] if rng.random() < 0.7 else ops + [["exec", sel]]
     cfg = {"n": n, "deps": deps, "mc": mc, "prio": prio, "seq": seq, "res": res, "bad": bad,
            "act": act, "truthy": truthy, "setup": setup, "ops": ops, "kw": kw, "fn": fn,
-           "debug": debug, "run_debug": run_debug, "flavour": rng.choice(["sync", "async"])}
+           "debug": debug, "run_debug": run_debug, "profile": rng.random() < 0.25, "flavour": rng.choice(["sync", "async"])}
     if rng.random() < 0.25 and fn == list(range(1, n + 1)):
         cfg["reconf"] = {"prio": [rng.choice([-3, 0, 1, 4, 9]) for _ in range(n)], "seq": [rng.random() < 0.2 for _ in range(n)],
                          "named": [rng.random() < 0.6 for _ in range(n)], "via": rng.choice(["dict", "json", "yaml"]),
